@@ -22,7 +22,7 @@ Obs(r) == [status |-> r.status, calls |-> r.calls, outTags |-> Range(r.outTags),
 FamKey(line) == (IF Given(line, QuietT) THEN "q" ELSE "") \o (IF Given(line, HelpT) THEN "h" ELSE "")
                 \o (IF Given(line, VersionT) THEN "V" ELSE "")
 KindsOK(line) == \A i \in 1..Len(line) :
-                   /\ line[i].k \in {"name", "pos", "own", "sw", "dd", "lit"} /\ Len(line[i].t) >= 1
+                   /\ line[i].k \in {"name", "pos", "own", "sw", "dd", "lit", "glob"} /\ Len(line[i].t) >= 1
                    /\ (line[i].k = "sw" => (Len(line[i].t) = 1 /\ line[i].t[1] \in SwitchT))
                    /\ (line[i].k = "dd" => line[i].t = <<"--">>)
                    /\ (line[i].k # "dd" => \A j \in 1..Len(line[i].t) : line[i].t[j] # "--")
